@@ -217,6 +217,20 @@ def run(rep, tier, rng):
                                                                                          "WTAAssocMem": "0.3, 16, mapping=['A']", "IAAssocMem": "16, mapping=['A']"}[cname]
                                              + ", vocabs=vm)\nassert m.vocabs is vm\n"})
 
+    # NumPy integers are integers: accepted and sharing the vocabulary of that dimensionality
+    for arg in (np.int64(16), np.int32(16), np.uint8(16), np.array([2, 14]).sum()):
+        with spa.Network() as model:
+            first = spa.State(16, subdimensions=1)
+            o = c.outcome(lambda: spa.State(arg, subdimensions=1))
+            o2 = c.outcome(lambda: spa.Transcode(input_vocab=arg, output_vocab=arg))
+        rep.case(("numpy-int-dim", type(arg).__name__))
+        rep.count("rejected_args")
+        for nm, oo in (("State", o), ("Transcode", o2)):
+            if oo[0] != "ok":
+                rep.violation(f"{nm}({type(arg).__name__}(16)) raised {oo[0]}: a NumPy integer dimensionality is rejected", {"case": {"arg": type(arg).__name__}})
+            elif getattr(oo[1], "vocab", getattr(oo[1], "input_vocab", None)) is not first.vocab:
+                rep.violation(f"{nm}({type(arg).__name__}(16)) does not share the model's 16-dimensional vocabulary", {"case": {"arg": type(arg).__name__}})
+
     # a dimensionality is an integer, whatever was built before
     for prior in (False, True):
         for arg in (16.0, np.float64(16.0), 32.0):
